@@ -132,7 +132,8 @@ def collect(tier, seed):
             continue
         r = Rng(c['seed'])
         # direction A: the library writes
-        c['wcodec'] = r.choice(['null', 'deflate', 'snappy', 'bzip2', 'xz', 'zstandard'])
+        c['wcodec'] = r.choice(['null', 'deflate', 'snappy', 'bzip2', 'xz', 'zstandard', 'deflate:0', 'deflate:9', 'bzip2:1', 'bzip2:9',
+                                'xz:0', 'xz:9', 'zstandard:1', 'zstandard:19'])
         c['bsz'] = r.choice([0, 1, 7, 64, 16000])
         if c.get('force_codec'):
             c['wcodec'], c['bsz'] = c['force_codec'], 1 << 24
@@ -149,6 +150,9 @@ def collect(tier, seed):
         if c.get('force_codec'):
             c['rcodec'] = c['force_codec'] if c['force_codec'] != 'zstandard' else 'xz'
         extra = [(b'avro.unknown.key', b'x')] if r.chance(1, 2) else []
+        if c['rcodec'] in ('bzip2', 'xz') and r.chance(1, 2):
+            # a level announced by the writer (any value: it does not matter for reading)
+            extra.append((b'avro.codec.compression_level', bytes([r.choice([0, 1, 5, 9, 200])]) + (b'zz' if r.chance(1, 4) else b'')))
         c['ruser'] = {}
         for _ in range(r.below(4)):
             k = r.choice(['a', 'user.key', 'zz', 'avro_not_reserved'])
@@ -193,8 +197,13 @@ def judge(run, cases, out_w, out_r):
                     raise ocf.OcfError('no avro.schema')
                 json.loads(md[b'avro.schema'].decode('utf-8'))
                 codec = md.get(b'avro.codec', b'null').decode()
-                if codec != c['wcodec']:
+                wbase, _, wlevel = c['wcodec'].partition(':')
+                if codec != wbase:
                     raise ocf.OcfError('avro.codec is %s, the writer was given %s' % (codec, c['wcodec']))
+                if wlevel and wbase in ('bzip2', 'xz', 'zstandard') and md.get(b'avro.codec.compression_level') != bytes([int(wlevel)]):
+                    raise ocf.OcfError('avro.codec.compression_level is %r, the writer was given level %s' % (md.get(b'avro.codec.compression_level'), wlevel))
+                if wbase in ('null', 'deflate', 'snappy') and b'avro.codec.compression_level' in md:
+                    raise ocf.OcfError('a compression level is announced for %s' % wbase)
                 blocks, end, why = ocf.parse_blocks(sink, pos, marker)
                 if why is not None or end != len(sink):
                     raise ocf.OcfError('body: %s at %d of %d' % (why, end, len(sink)))
